@@ -251,3 +251,28 @@ class index_to_quaternions:
                 "forall(lambda k: 0 <= argmax_indices[k] < self._quaternions.shape[0], (0, argmax_indices.shape[0]))"]
     ensures = {"rotation_of_best_template": "result.shape == (argmax_indices.shape[0], 4) and "
                "forall(lambda k: all(result[k, c] == self._quaternions[argmax_indices[k], c] for c in range(4)), (0, argmax_indices.shape[0]))"}
+
+
+@contract("acryo.pick._concrete:find_maxima", props=["C20"])
+class find_maxima:
+    """one row of three coordinates per detected maximum -- also when nothing is detected (a featureless chunk of a
+    chunked image must contribute zero picks, not an error further down)"""
+    params = dict(img=_IMG, min_distance=T.Real(lo=0), min_intensity=T.Real())
+    replay = staticmethod(lambda ob, meta, model: '''
+import numpy as np
+from acryo.pick._concrete import find_maxima
+from acryo.pick import LoGPicker
+ok = True
+for img in (np.zeros((12, 12, 12), np.float32), np.random.default_rng(0).normal(size=(12, 12, 12)).astype(np.float32)):
+    r = find_maxima(img, 1.5, 0.0)
+    print("maxima found:", r.shape[0], "| result shape", r.shape)
+    ok = ok and r.ndim == 2 and r.shape[1] == 3
+try:
+    n = len(LoGPicker(sigma=2.0).pick_molecules(np.zeros((20, 20, 20), np.float32), scale=1.0))
+    print("featureless image: %d picks" % n)
+except Exception as e:
+    print("featureless image: pick_molecules raised", type(e).__name__, e); ok = False
+print("clause holds natively:", ok)
+print("CONFIRMED" if not ok else "NOT-CONFIRMED"); sys.exit(1 if not ok else 0)
+''')
+    ensures = {"one_row_per_maximum": "result.ndim == 2 and result.shape[1] == 3"}
